@@ -204,6 +204,31 @@ func (d *Demand) proveSnap(site *Site, sn *Snap, g *Formula, depth int) *Failure
 		fmt.Printf("DEMAND %s depth=%d\n   g=%s\n   r=%s\n   killed=%v notOwn=%v\n", lab, depth, g.String(), r.String(), sn.Killed, senderIsNotOwn(facts))
 	}
 	if r.K == FFalse {
+		// the path itself may be one the callers rule out: a branch decision of this function about a piece of state that
+		// has not been written since the entry (`if !complete { … }` in a helper that is only called when complete). The
+		// requirement handed to the callers is then that the decision cannot come out this way.
+		if len(d.Roots) > 0 && !d.Roots[site.Fn] {
+			var alts []*Formula
+			for _, l := range sn.TrailL {
+				if l.A == nil || mode(l.A) != ModeEqual {
+					continue
+				}
+				neg := fAtom(l.A)
+				if l.Pos {
+					neg = fNot(neg)
+				}
+				alts = append(alts, neg)
+			}
+			if len(alts) > 0 && len(alts) <= 6 {
+				infeasible := alts[0]
+				for _, a := range alts[1:] {
+					infeasible = fOr(infeasible, a)
+				}
+				if f := d.proveEntry(site.Fn, infeasible, depth+1); f == nil {
+					return nil
+				}
+			}
+		}
 		return &Failure{Chain: []string{lab}, Cex: cexString(cex), Reason: "cannot establish " + g.String() + " on path {" + sn.Trail + "}"}
 	}
 	if r.K == FTrue {
